@@ -16,6 +16,9 @@ func genStructs(o *hx.Out, rng *hx.Rng, n, nmut int) {
 		for i := 0; i < n; i++ {
 			d := cxs.GenValue(rng, e, 0, i%3 == 2)
 			o.Put(cxs.RunStruct(e, d, "gen"))
+			if rec, ok := cxs.RunNilElems(e, d, rng.U64()); ok {
+				o.Put(rec)
+			}
 			if i == 0 { // hostile length prefixes / varints at every top-level position (nested readers with wrapped ends)
 				for k, m := range cxs.VarintAttacks(d) {
 					if k%3 == 0 {
@@ -43,6 +46,17 @@ func replayOther(o *hx.Out, k string, line []byte) {
 		}
 		d, _ := hex.DecodeString(r.D)
 		o.Put(cxs.RunStruct(e, d, r.Gen))
+	case "nil":
+		var r cxs.NilRec
+		if err := json.Unmarshal(line, &r); err != nil {
+			panic(err)
+		}
+		d, _ := hex.DecodeString(r.D)
+		for seed := uint64(1); seed < 50; seed++ { // any placement of nil elements
+			if rec, ok := cxs.RunNilElems(cxs.Lookup(r.Name), d, seed); ok {
+				o.Put(rec)
+			}
+		}
 	case "l32":
 		replayLisk32(o, line)
 	case "id":
